@@ -12,7 +12,7 @@ BOUNDS = [2 ** 8 - 1, 2 ** 8, 2 ** 8 + 1, 2 ** 16 - 1, 2 ** 16, 2 ** 16 + 1, 2 *
 
 class C15:
     id = "C15"
-    rule = ("enumerated per version 3.6-3.13: every opcode number 0..255 x operands {0..1024} (quick) / {0..65535} "
+    rule = ("enumerated per version 3.6-3.13: every opcode number 0..255 and every pseudo-instruction number >= 256 the version's opmap lists x operands {0..1024} (quick) / {0..65535} "
             "(thorough) plus the EXTENDED_ARG boundaries 2^8, 2^16, 2^24 (+-1) and 2^30-1, plus Hypothesis draws below "
             "2^30 (dis.stack_effect computes in C ints; larger operands overflow in the reference); oracle: xstack_effect(op, opc, arg) == make_std_api(v).stack_effect(op, arg) == that CPython's "
             "dis.stack_effect(op, arg) (jump unspecified); pairs CPython rejects with ValueError are skipped; "
@@ -35,9 +35,14 @@ class C15:
                 self.apis[v] = self.x.std.make_std_api(vt, None)
             except Exception:
                 self.apis[v] = None
+        # every opcode number of the version: 0..255 plus the pseudo-instructions (>= 256) that 3.12+ list in opmap
+        self.all_ops = {}
+        for v in VERSIONS:
+            ref = ctx.pool.ref(v).call("opcode_tables")
+            self.all_ops[v] = sorted(set(range(256)) | set(ref["opmap"].values()))
 
     def strategy(self, ctx):
-        return st.tuples(st.sampled_from(VERSIONS), st.integers(0, 255),
+        return st.tuples(st.sampled_from(VERSIONS), st.one_of(st.integers(0, 255), st.integers(256, 270)),
                          st.one_of(st.integers(0, 2 ** 30 - 1), st.integers(0, 70000), st.sampled_from(BOUNDS))).map(
             lambda p: {"t": "pair", "v": p[0], "op": p[1], "arg": p[2]})
 
@@ -45,7 +50,7 @@ class C15:
         hi = 1025 if ctx.tier == "quick" else 65536
         step = 1025 if ctx.tier == "quick" else 8192
         for v in VERSIONS:
-            for op in range(256):
+            for op in self.all_ops[v]:
                 for lo in range(0, hi, step):
                     yield {"t": "range", "v": v, "op": op, "lo": lo, "hi": min(hi, lo + step)}
                 yield {"t": "bounds", "v": v, "op": op}
@@ -53,11 +58,11 @@ class C15:
     def judge(self, case, ctx):
         res = Result()
         v, op = case.get("v"), case.get("op")
-        if v not in VERSIONS or not isinstance(op, int) or not (0 <= op < 256):
+        if v not in VERSIONS or not isinstance(op, int) or not (0 <= op < 512):
             res.reject = "malformed-case"
             return res
         opc = self.opcs[v]
-        name = opc.opname[op]
+        name = opc.opname[op] if op < len(opc.opname) else "<%d>" % op
         t = case.get("t")
         w = ctx.pool.ref(v)
         if t == "range":
